@@ -182,6 +182,34 @@ class Explorer:
             return "valid", None
         if r == "sat":
             return "refuted", self._last.model()
+        # unknown: retry with the purely real part of the path condition (dropping constraints is sound for proving)
+        try:
+            t = time.time()
+            s2 = z3.Then("simplify", "purify-arith", "qfnra-nlsat").solver()
+            s2.set("timeout", self.query_timeout_ms)
+            # integers are relaxed to reals (ToReal(i) -> fresh real); constraints that still mention integers are dropped
+            forms = list(self.solver.assertions()) + [z3.Not(prop)]
+            ints = {}
+            for f in forms:
+                _int_consts(f, ints)
+            subs = [(z3.ToReal(v), z3.Real("relaxed!" + str(v))) for v in ints.values()]
+            kept = 0
+            for f in forms[:-1]:
+                g = z3.substitute(f, *subs) if subs else f
+                if _pure_real(g):
+                    s2.add(g)
+                    kept += 1
+            g = z3.substitute(forms[-1], *subs) if subs else forms[-1]
+            if not _pure_real(g):
+                raise z3.Z3Exception("obligation is not purely real after relaxation")
+            s2.add(g)
+            self.n_queries += 1
+            r2 = str(s2.check())
+            self.solver_s += time.time() - t
+            if r2 == "unsat":
+                return "valid", None
+        except z3.Z3Exception:
+            pass
         return "unknown", None
 
     def model(self):
@@ -234,6 +262,50 @@ class Explorer:
 
 class Infeasible(PathAbort):
     pass
+
+
+_PURE = {}
+
+
+def _int_consts(e, acc, seen=None):
+    seen = seen if seen is not None else set()
+    i = e.get_id()
+    if i in seen:
+        return
+    seen.add(i)
+    if z3.is_const(e):
+        if z3.is_int(e) and not z3.is_int_value(e) and e.decl().kind() == z3.Z3_OP_UNINTERPRETED:
+            acc[str(e)] = e
+        return
+    if z3.is_app(e):
+        for c in e.children():
+            _int_consts(c, acc, seen)
+
+
+
+def _pure_real(e):
+    """no integer-sorted subterm (ToInt, Int constants/variables, div, mod)"""
+    i = e.get_id()
+    if i in _PURE:
+        return _PURE[i]
+    ok = True
+    if z3.is_int(e) and not z3.is_int_value(e):
+        ok = False
+    elif z3.is_app(e):
+        k = e.decl().kind()
+        if k in (z3.Z3_OP_TO_INT, z3.Z3_OP_IDIV, z3.Z3_OP_MOD, z3.Z3_OP_REM, z3.Z3_OP_IS_INT, z3.Z3_OP_UNINTERPRETED) and e.num_args() > 0:
+            ok = False
+        else:
+            for c in e.children():
+                if z3.is_int(c) and z3.is_int_value(c):
+                    continue
+                if z3.is_app(c) and c.decl().kind() == z3.Z3_OP_TO_REAL and z3.is_int_value(c.arg(0)):
+                    continue
+                if not _pure_real(c):
+                    ok = False
+                    break
+    _PURE[i] = ok
+    return ok
 
 
 def _round_sig(f: fractions.Fraction, digits: _builtin_int, mode: _builtin_str) -> fractions.Fraction:
